@@ -479,13 +479,22 @@ func TestVerifC11CPURounds(t *testing.T) {
 					c.Violation(t, "e2e:after-target-met", "round %d: %s evicted %s although its target was already covered by the victims of this round so far%s", round, cl.Feature, p.Name, describe())
 					return
 				}
+				// the best-effort comparison is only a total order when every pod of the list carries spec.priority
+				orderDefined := true
+				if cl.Feature == string(features.BECPUEvict) {
+					for _, q := range s.pods {
+						if state[q.Idx] != stGone && q.Prio == nil && c11Listable(s, cl.Feature, q) {
+							orderDefined = false
+						}
+					}
+				}
 				var ahead, all []*c11Pod
 				for _, q := range pending {
 					if isVictim[q.Idx] || !c11Listable(s, cl.Feature, q) {
 						continue
 					}
 					all = append(all, q)
-					if c11Precedes(cl.Feature, q, p) {
+					if orderDefined && c11Precedes(cl.Feature, q, p) {
 						ahead = append(ahead, q)
 					}
 				}
